@@ -35,6 +35,12 @@ BASES = [
      ("expr", "fast", ["du_dt = -u*k1", "db_dt = -b + u"])],
     [("states", "zeta", ["p=1.0"]), ("states", "alpha", ["q=2.0"]), ("states", "mid", ["r=3.0"]),
      ("expr", "zeta", ["ip = p*2", "dp_dt = -ip"]), ("expr", "alpha", ["iq = q*3", "dq_dt = -iq"]), ("expr", "mid", ["ir = r*4", "dr_dt = -ir + ip*iq"])],
+    # the same parameter declared identically in the blocks of two components (accepted: identical definitions)
+    [("parameters", "A", ["g=2.0", "a=1.5"]), ("parameters", "B", ["g=2.0", "b=3.0"]), ("states", "A", ["x=1.0"]), ("states", "B", ["y=2.0"]),
+     ("expr", "A", ["dx_dt = -g*x*a + y"]), ("expr", "B", ["dy_dt = -g*y*b + x"])],
+    # names that differ only in case, in different components
+    [("parameters", "fast", ["Km=2.0", "v=0.5"]), ("parameters", "slow", ["km=0.25", "V=1.5"]), ("states", "fast", ["s=1.0"]), ("states", "slow", ["S=2.0"]),
+     ("expr", "fast", ["ds_dt = -v*s/(Km + s) + S"]), ("expr", "slow", ["dS_dt = -V*S/(km + S) + s"])],
     # mixed style: header-less (default component) lines next to a headed block
     [("parameters", None, ["sigma=12.0"]), ("parameters", "slow", ["rho=21.0", "beta=2.4"]), ("states", None, ["x=1.0"]),
      ("states", "slow", ["y=2.0", "z=3.05"]), ("expr", None, ["s = sigma*y", "dx_dt = s - sigma*x"]),
@@ -127,6 +133,19 @@ def work(task):
         return prog.result()
     prog.fact("ode-equal", ode1 == ode0 and ode0 == ode1, "NotEqual", f"ODE.__eq__ is False for a {task['opts']['kind']} permutation "
               f"(components {[c.name for c in ode0.components]} vs {[c.name for c in ode1.components]})")
+    # component contents (the sub-model workflow) must not depend on the order of the blocks either
+    try:
+        for comp0 in ode0.components:
+            comp1 = ode1.get_component(comp0.name)
+            a, b = comp0.to_ode(), comp1.to_ode()
+            same = (sorted(x.name for x in a.parameters) == sorted(x.name for x in b.parameters)
+                    and sorted(x.name for x in a.states) == sorted(x.name for x in b.states)
+                    and dict(a.missing_variables) == dict(b.missing_variables))
+            prog.fact(f"component|{comp0.name}", same, "ComponentChanged",
+                      f"component {comp0.name!r}: parameters/states/missing variables differ after a {task['opts']['kind']} permutation: "
+                      f"{sorted(x.name for x in a.parameters)}/{dict(a.missing_variables)} vs {sorted(x.name for x in b.parameters)}/{dict(b.missing_variables)}")
+    except Exception as e:
+        prog.fact("component|lookup", False, "ComponentChanged", f"component lookup failed after permutation: {type(e).__name__}: {e}"[:200])
     schemes = ["explicit_euler", "generalized_rush_larsen"]
     for backend in ("numpy", "c"):
         v0 = checks.make_view(prog, ode0, backend, label=f"{backend}|base", schemes=schemes)
